@@ -110,7 +110,12 @@ func (p placement) importPath(i, j int) string {
 func defs(s *spec, i int) string {
 	var b strings.Builder
 	fmt.Fprintf(&b, "enum E%d {\n    A = 1;\n    B = 2;\n}\n", i)
-	fmt.Fprintf(&b, "struct S%d {\n    int32 x;\n    E%d e;\n}\n", i, i)
+	if i%2 == 1 {
+		// a date (needs the Go package "time") that occurs in odd-numbered files only: never in the root
+		fmt.Fprintf(&b, "struct S%d {\n    int32 x;\n    E%d e;\n    date when;\n}\n", i, i)
+	} else {
+		fmt.Fprintf(&b, "struct S%d {\n    int32 x;\n    E%d e;\n}\n", i, i)
+	}
 	fmt.Fprintf(&b, "message M%d {\n    1 -> S%d own;\n", i, i)
 	k := 2
 	for _, j := range s.Out[i] {
